@@ -1087,15 +1087,17 @@ Proof.
 Qed.
 
 Lemma dsa_choice_in vr viol cur cc best d p v :
-  dsa_choice vr viol cur cc best d p = Some v -> In v (fst best).
+  dsa_choice vr viol cur cc best d p = Ok (Some v) -> In v (fst best).
 Proof.
   unfold dsa_choice.
   set (trimmed := if Nat.ltb 1 (len (fst best)) then remove_z cur (fst best) else fst best).
   assert (Ht : forall w, In w trimmed -> In w (fst best)).
   { unfold trimmed. destruct (Nat.ltb 1 (len (fst best))); auto. intros w. apply remove_z_In. }
   assert (Hc : forall cands, (forall w, In w cands -> In w (fst best)) ->
-               (if d then nth_error cands p else None) = Some v -> In v (fst best)).
-  { intros cands Hs H. destruct d; [|discriminate]. apply Hs. eapply nth_error_In; eauto. }
+               (if d then match cands with [] => Err ErrIndex | _ => Ok (nth_error cands p) end
+                else Ok None) = Ok (Some v) -> In v (fst best)).
+  { intros cands Hs H. destruct d; [|discriminate]. destruct cands as [|c0 cands]; [discriminate|].
+    inversion H as [H1]. apply Hs. eapply nth_error_In; eauto. }
   destruct (ec_ltb (Fin 0) (delta cc (snd best))).
   - apply Hc. auto.
   - destruct (ec_eqb (delta cc (snd best)) (Fin 0)); [|discriminate].
@@ -1111,7 +1113,7 @@ Proof.
   unfold dsa_evaluate. intro H.
   destruct (find_optimal x (dict_set Z.eqb (v_name x) cur a) cs m) as [best|e]; [|discriminate].
   simpl in H. destruct (assignment_cost _ cs false) as [cc|e]; [|discriminate]. simpl in H.
-  inversion H as [H1]. exists best. split; auto. eapply dsa_choice_in; eauto.
+  exists best. split; auto. eapply dsa_choice_in; eauto.
 Qed.
 
 Theorem dsatuto_selects_best x m a cs cur d v :
@@ -1121,9 +1123,9 @@ Proof.
   unfold dsatuto_evaluate. intro H.
   destruct (assignment_cost _ cs false) as [cc|e]; [|discriminate]. simpl in H.
   destruct (find_optimal x (dict_set Z.eqb (v_name x) cur a) cs m) as [best|e]; [|discriminate].
-  simpl in H. inversion H as [H1]. exists best. split; auto.
-  match type of H1 with (if ?c then _ else _) = _ => destruct c end; [|discriminate].
-  destruct (fst best); simpl in *; [discriminate|]. inversion H1. now left.
+  simpl in H. exists best. split; auto.
+  match type of H with (if ?c then _ else _) = _ => destruct c end; [|discriminate].
+  destruct (fst best); simpl in *; [discriminate|]. inversion H. now left.
 Qed.
 
 (* ================================================================== statements used by Prop_C12 / Prop_C06 *)
